@@ -14,6 +14,7 @@ tvars == <<tid, l, writers, files, first, err, nlan>>
 Clause(e) ==
     IF e.op = "new" THEN (IF e.exc # "None" THEN "C15.Total/new" ELSE "")
     ELSE IF e.op = "edit" THEN (IF e.nl # nlan + 1 THEN "driver/edit" ELSE "")
+    ELSE IF e.op = "fail" THEN ""          \* a write into a missing directory: raising or not, it must not affect later writes
     ELSE LET w == writers[e.w]
              skip == e.mode = "skip" /\ e.path \in DOMAIN files
              x == F(w, e.kind, nlan)
@@ -37,7 +38,7 @@ TStep == /\ l <= Len(Traces[tid].ev)
                /\ nlan' = IF e.op = "edit" THEN e.nl ELSE nlan
                /\ IF e.op = "new"
                   THEN writers' = Append(writers, [fmt |-> e.fmt, d |-> e.d]) /\ UNCHANGED <<files, first>>
-                  ELSE IF e.op = "edit" THEN UNCHANGED <<writers, files, first>>
+                  ELSE IF e.op \in {"edit", "fail"} THEN UNCHANGED <<writers, files, first>>
                   ELSE /\ UNCHANGED writers
                        /\ files' = [p \in DOMAIN files \cup {e.path} |-> IF p = e.path THEN e.cid ELSE files[p]]   \* adopt what is on disk
                        /\ LET k == Key(writers[e.w], e.kind, nlan) IN
